@@ -1,11 +1,11 @@
 #!/bin/bash
-# check that a fix commit is needed: revert it in /repo's working tree, run the check (expect exit 1), restore.
-# usage: revert_test.sh <commit> <Cnn>
-c="$1"; p="$2"
-cd /repo || exit 2
-if [ -n "$(git status --porcelain --untracked-files=no)" ]; then echo "/repo not clean"; exit 2; fi
-git show "$c" | git apply -R || { echo "cannot revert $c"; exit 2; }
-out=$(cd /verif && VERIF_OUT_DIR=/tmp/seedrun ./check "$p" quick 2>&1); code=$?
-git checkout -- .
+# show that a fix commit is needed: build the harness against a scratch worktree with that commit reverted and run
+# the check (expect exit 1). /repo itself is not touched. usage: revert_test.sh <commit> <Cnn>
+c="$1"; p="$2"; wt=/tmp/seedrepo
+git -C /repo worktree remove --force "$wt" >/dev/null 2>&1
+git -C /repo worktree add -q --detach "$wt" HEAD || exit 2
+( cd "$wt" && git show "$c" | git apply -R --3way >/dev/null 2>&1 ) || { echo "cannot revert $c"; git -C /repo worktree remove --force "$wt"; exit 2; }
+out=$(cd /verif && VERIF_REPO="$wt" VERIF_OUT_DIR=/tmp/seedrun ./check "$p" quick 2>&1); code=$?
+git -C /repo worktree remove --force "$wt"
 echo "$out" | grep -E "signature|VIOLATION|BUILD" | cut -c1-220 | head -4
 echo "revert $c vs $p: exit=$code"
